@@ -382,8 +382,13 @@ pub fn run(ctx: &Ctx, rep: &mut Report) {
         Tier::Thorough => 10_000_000,
     };
     run_prop(ctx, rep, "seq", case_strategy(), n, 8000, check);
+    run_prop(ctx, rep, "arbitrary", crate::c18b::acase_strategy(), n, 8000, crate::c18b::check);
 }
 
-pub fn replay(_sub: &str, case: &serde_json::Value) -> Result<CaseInfo, Fail> {
-    replay_case::<Case, _>(case, check)
+pub fn replay(sub: &str, case: &serde_json::Value) -> Result<CaseInfo, Fail> {
+    if sub.starts_with("arbitrary") {
+        replay_case::<crate::c18b::ACase, _>(case, crate::c18b::check)
+    } else {
+        replay_case::<Case, _>(case, check)
+    }
 }
